@@ -37,7 +37,7 @@ class Other:
     ds: tuple = _scaled
 
 
-KEYS = ["A", "S.X", "S.T.Y", "S.K", "D", "U"]       # U is never mentioned by any class
+KEYS = ["A", "S.X", "S.T.Y", "S.K", "D", "U", "S.W", "S.T.V"]       # U, S.W and S.T.V are never mentioned by any class
 
 
 def _mk(flags, vals):
@@ -79,7 +79,7 @@ def _reported(cls, o):
               "member fails); class validate / keys / explain are the union over the members, inherited ones included")
 def members(which: int, f0: bool, f1: bool, f2: bool, f3: bool, f4: bool, f5: bool, v0: int, v1: int, v2: int, v3: int, v4: int, v5: int) -> int:
     cls = [Base, Child][which]
-    o = _mk((f0, f1, f2, f3, f4, f5), (v0, v1, v2, v3, v4, v5))
+    o = _mk((f0, f1, f2, f3, f4, f5, f5, f4), (v0, v1, v2, v3, v4, v5, v5, v4))
     with quiet():
         inst = outcome(lambda: cls(o))
         keys = outcome(lambda: cls.keys(o))
@@ -108,9 +108,9 @@ def members(which: int, f0: bool, f1: bool, f2: bool, f3: bool, f4: bool, f5: bo
     return 2
 
 
-@harness("C19", lemma="equality", cubes={"which": [0, 1], "diff": [0, 1, 2, 3, 4, 5]},
+@harness("C19", lemma="equality", cubes={"which": [0, 1], "diff": [0, 1, 2, 3, 4, 5, 6, 7]},
          example=dict(which=0, diff=1, f1=True, f3=False, f4=False, f5=True, v0=1, v1=2, v2=3, v3=4, v4=5, v5=6, g=True, w=7), timeout=300,
-         bounds="two dictionaries: o1 symbolic over {A, S.X, S.T.Y, S.K, D, U}; o2 = o1 with key number `diff` changed, deleted or "
+         bounds="two dictionaries: o1 symbolic over {A, S.X, S.T.Y, S.K, D, U, S.W, S.T.V} (the last three never mentioned, two of them siblings inside reported sections); o2 = o1 with key number `diff` changed, deleted or "
                 "added (symbolic); both sufficient",
          what="two instances compare equal exactly when the options each was built from, restricted to the keys the class reports "
               "for them (nested dotted keys included), are equal; instances of different classes are never equal; repr shows the "
@@ -118,8 +118,8 @@ def members(which: int, f0: bool, f1: bool, f2: bool, f3: bool, f4: bool, f5: bo
 def equality(which: int, diff: int, f1: bool, f3: bool, f4: bool, f5: bool, v0: int, v1: int, v2: int, v3: int, v4: int, v5: int,
              g: bool, w: int) -> int:
     cls = [Base, Child][which]
-    flags1 = [True, f1, True, f3, f4, f5]
-    vals1 = [v0, v1, v2, v3, v4, v5]
+    flags1 = [True, f1, True, f3, f4, f5, f5, f4]
+    vals1 = [v0, v1, v2, v3, v4, v5, v5, v4]
     flags2, vals2 = list(flags1), list(vals1)
     flags2[diff] = g if diff not in (0, 2) else True      # A and S.T.Y stay present (instances must exist)
     vals2[diff] = w
